@@ -505,6 +505,7 @@ type Contract struct {
 	Unroll     int
 	ResultName string
 	Implements string
+	Logged     bool     // calls are appended to the ghost call log
 	Cuts       []string // source-text anchors: paths reaching such a line are not verified (listed)
 }
 
@@ -549,7 +550,7 @@ var clauseKeywords = map[string]bool{"func": true, "iface": true, "extern": true
 	"lemma": true, "requires": true, "ensures": true, "raises": true, "noraise": true, "noreturn": true,
 	"modifies": true, "loop": true, "assert": true, "mode": true, "inline": true, "pure": true,
 	"outside-subset": true, "assume": true, "may-panic": true, "nosafe": true, "end": true, "bounded": true,
-	"abstract": true, "implements": true, "cut": true, "uninterp": true, "axiom": true}
+	"abstract": true, "implements": true, "cut": true, "uninterp": true, "axiom": true, "logged": true}
 
 func splitTags(s string) []string {
 	s = strings.Trim(s, "[] ")
@@ -827,6 +828,8 @@ func (db *SpecDB) parseFile(fname, prefix, data string) {
 				}
 				cur.Cuts = append(cur.Cuts, r[:j])
 				db.Assumes = append(db.Assumes, fmt.Sprintf("%s: code from the line containing %q onwards is NOT verified (%s)", cur.Key, r[:j], strings.TrimSpace(r[j+1:])))
+			case "logged":
+				cur.Logged = true
 			case "noraise":
 				cur.NoRaise = true
 			case "noreturn":
